@@ -10,7 +10,7 @@ package raft
 // small helpers
 
 // STUB (outside area repl) -- util.go min, verified (not trusted)
-//@ func min
+//@ func min params(a, b)
 //@   ensures result0 == umin(a, b)
 
 //@ pure umin(a uint64, b uint64) uint64 = ite(a <= b, a, b)
@@ -18,7 +18,7 @@ package raft
 // notifyLdr only performs a select over channels (send of replUpdate{&r.status, u} to the leader
 // goroutine / stop): goroutine boundary, no modelled state is touched. trusted because the engine
 // rejects the body ("interior/local pointer escapes to heap or contract": &r.status).
-//@ func (*replication).notifyLdr
+//@ func (*replication).notifyLdr params(r, u)
 //@   trusted
 
 // ---------------------------------------------------------------------------
@@ -33,7 +33,7 @@ package raft
 
 //@ pure IsReject(x rpcResult) bool = x == prevEntryNotFound || x == prevTermMismatch
 
-//@ func (*replication).onAppendEntriesResp
+//@ func (*replication).onAppendEntriesResp params(r, resp, reqLastIndex)
 //@   requires [PA4.no-reject-at-zero] IsReject(resp.result) ==> r.nextIndex >= 2
 //@   requires [PA2.result-domain] resp.result == success || resp.result == staleTerm || IsReject(resp.result) || resp.result == unexpectedErr
 //@   requires [PA2.last-index-no-overflow] resp.lastLogIndex < 18446744073709551615
@@ -72,7 +72,7 @@ package raft
 // Get/GetN panic when the index is beyond LastIndex: that is their range precondition.
 // (duplicate of view (*log.Log).Contains removed: defined in verif_contracts_fsm.go)
 // (duplicate of view (*log.Log).Get removed: defined in verif_contracts_fsm.go)
-//@ view (*log.Log).GetN
+//@ view (*log.Log).GetN params(l, i, n)
 //@   requires [C03.view-bounds] i + n - 1 <= l.glast && n >= 1
 //@   ensures (result1 != nil) == (i <= l.gprev)
 //@   ensures len(result0) <= 9223372036854775807
@@ -81,7 +81,7 @@ package raft
 // T-std: a reader over a byte slice yields the entry encoded at the start of the slice.
 // (duplicate of func bytes.NewReader removed: defined in verif_contracts_fsm.go)
 
-//@ func (*replication).getEntryTerm
+//@ func (*replication).getEntryTerm params(r, i)
 //@   requires r.log != nil
 //@   requires [C13.get-range] i <= r.log.glast
 //@   modifies spos
@@ -99,7 +99,7 @@ package raft
 
 // STUB (outside area repl) -- conn.go, network boundary: trusted. The bytes written are the
 // encoding of *req at the time of the call; I/O errors are never the log package's sentinel.
-//@ func (*conn).writeReq
+//@ func (*conn).writeReq params(c, req, deadline)
 //@   trusted
 //@   modifies c.gsPrevIndex, c.gsPrevTerm, c.gsNum, c.gsSnapIndex, c.gsSnapTerm, c.gsSnapSize, c.gsSnapCfgIndex, c.gsSnapCfgTerm, c.gsSnapCfgNodes
 //@   ensures istype(req, *appendReq) ==> c.gsPrevIndex == as(req, *appendReq).prevLogIndex && c.gsPrevTerm == as(req, *appendReq).prevLogTerm && c.gsNum == as(req, *appendReq).numEntries
@@ -112,8 +112,8 @@ package raft
 // (duplicate of func (*snapshots).latest removed: defined in verif_contracts_fsm.go)
 
 // STUB (outside area repl) -- util.go: float arithmetic / sum of lengths, no state
-//@ func durationFor
-//@ func size
+//@ func durationFor params(bandwidth, n)
+//@ func size params(buffs)
 //@   requires len(buffs) <= 9223372036854775807
 //@   loop 1 invariant rangeindex >= -1 && rangeindex < len(buffs)
 
@@ -126,12 +126,12 @@ package raft
 //@   ensures result1 != log.ErrNotFound
 
 // time.Now arithmetic only
-//@ func (*replication).deadline
-//@ func (*replication).deadlineSize
+//@ func (*replication).deadline params(r)
+//@ func (*replication).deadlineSize params(r, size)
 
 // socket write of entries from .. from+n-1 of the view. The entries must be the ones announced
 // by the header just written on this connection.
-//@ func (*replication).writeEntriesTo
+//@ func (*replication).writeEntriesTo params(r, c, from, n)
 //@   requires r.log != nil && c.rwc != nil
 //@   requires [C04.entries-follow-header] from == c.gsPrevIndex + 1 && n == c.gsNum && n >= 1
 //@   requires [C09.entries-in-view] r.log.gprev < from
@@ -142,7 +142,7 @@ package raft
 //@ pure ViewTerm(r *replication, i uint64) uint64 = ite(i == 0, 0, ite(i == r.snaps.index, r.snaps.term, r.log.geterm[i]))
 //@ pure TermMissing(r *replication, i uint64) bool = i != 0 && i != r.snaps.index && i <= r.log.gprev
 
-//@ func (*replication).writeAppendEntriesReq
+//@ func (*replication).writeAppendEntriesReq params(r, c, req, sendEntries)
 //@   requires ReplWF(r) && c.rwc != nil
 //@   modifies r.nextIndex, req.prevLogIndex, req.prevLogTerm, req.numEntries, c.gsPrevIndex, c.gsPrevTerm, c.gsNum, spos
 //@   maypanic OpError
@@ -162,7 +162,7 @@ package raft
 // a non-nil view whose LastIndex / PrevIndex are not below the ones of the previous view.
 //@ pure UpdateOK(r *replication, l *log.Log) bool = l != nil && l.glast >= r.ldrLastIndex && l.glast < 18446744073709551615 && l.gprev >= r.log.gprev
 
-//@ func (*replication).onLeaderUpdate
+//@ func (*replication).onLeaderUpdate params(r, u, req)
 //@   requires r.log != nil
 //@   requires [PA-chan.leader-update] UpdateOK(r, u.log)
 //@   modifies r.log, r.ldrLastIndex, r.node, req.ldrCommitIndex
@@ -174,7 +174,7 @@ package raft
 // goroutine boundary (select over stopCh / leaderUpdateCh / timer): trusted. The received value is
 // arbitrary for the engine; the contract assumes the channel invariant above and then says what
 // onLeaderUpdate (verified) does with it.
-//@ func (*replication).checkLeaderUpdate
+//@ func (*replication).checkLeaderUpdate params(r, stopCh, req, sendEntries)
 //@   trusted
 //@   requires r.log != nil
 //@   modifies r.log, r.ldrLastIndex, r.node, req.ldrCommitIndex, all(r.timer)
@@ -209,27 +209,27 @@ package raft
 // the snapshot opened for an install (trusted view for this call site: the label read from the
 // meta file is recorded in ghost fields snapshots.gop*; the function itself is verified in
 // verif_contracts_fsm.go against the abstract label maps)
-//@ view (*snapshots).open at (*replication).sendInstallSnapReq
+//@ view (*snapshots).open at (*replication).sendInstallSnapReq params(s)
 //@   modifies contents(s.used), s.gopIndex, s.gopTerm, s.gopSize, s.gopCfgIndex, s.gopCfgTerm, s.gopCfgNodes
 //@   ensures result1 == nil ==> result0 != nil && isfresh(result0) && result0.snaps == s && result0.file != nil && OpenedLabel(s, result0.meta)
 //@   ensures result1 == nil ==> result0.meta.index == s.index
 
 
 // STUB (outside area repl) -- snapshots.go (fsm area)
-//@ view (*snapshot).release at (*replication).sendInstallSnapReq
+//@ view (*snapshot).release at (*replication).sendInstallSnapReq params(s)
 //@   requires s.snaps != nil && s.file != nil && s.snaps.used != nil
 //@   modifies contents(s.snaps.used)
 
 
 // STUB (outside area repl) -- conn.go, network boundary: trusted. [PA2] the decoded response was
 // produced by the peer's handler of the request just sent.
-//@ func (*conn).readResp
+//@ func (*conn).readResp params(c, resp, deadline)
 //@   trusted
 //@   modifies allof(resp)
 //@   ensures result0 != log.ErrNotFound
 //@   ensures [PA2.result-domain] result0 == nil && istype(resp, *installSnapResp) ==> as(resp, *installSnapResp).result == success || as(resp, *installSnapResp).result == staleTerm || as(resp, *installSnapResp).result == unexpectedErr
 
-//@ func (*replication).sendInstallSnapReq
+//@ func (*replication).sendInstallSnapReq params(r, c, appReq)
 //@   requires r.log != nil && r.snaps != nil && r.snaps.used != nil && c.rwc != nil
 //@   requires r.matchIndex <= r.snaps.index && r.ldrLastIndex < 18446744073709551615
 //@   modifies r.matchIndex, r.nextIndex, r.log, r.ldrLastIndex, r.node, appReq.ldrCommitIndex, all(r.timer), contents(r.snaps.used), r.snaps.gopIndex, r.snaps.gopTerm, r.snaps.gopSize, r.snaps.gopCfgIndex, r.snaps.gopCfgTerm, r.snaps.gopCfgNodes, c.gsSnapIndex, c.gsSnapTerm, c.gsSnapSize, c.gsSnapCfgIndex, c.gsSnapCfgTerm, c.gsSnapCfgNodes
@@ -251,10 +251,10 @@ package raft
 // and no postcondition. To speak about timer.active (== transfer.inProgress()) these package-wide
 // views refine them (still trusted, time package boundary): stop() only clears active, reset(d)
 // only sets it; the timer and channel fields are not reassigned.
-//@ view (*safeTimer).stop
+//@ view (*safeTimer).stop params(t)
 //@   modifies t.active
 //@   ensures !t.active
-//@ view (*safeTimer).reset
+//@ view (*safeTimer).reset params(t, d)
 //@   modifies t.active
 //@   ensures t.active
 
@@ -274,21 +274,21 @@ package raft
 // the call in replyTransfer: membership actions are re-evaluated only after the transfer has been
 // cleared (canChangeConfig tests !transfer.inProgress()); everything is havocked afterwards, so
 // this is stated as an obligation at the call.
-//@ view (*leader).checkConfigActions at (*leader).replyTransfer
+//@ view (*leader).checkConfigActions at (*leader).replyTransfer params(l, t, config)
 //@   nilable t
 //@   requires [C16+C15.reply-clears] !l.transfer.timer.active && l.transfer.respCh == nil && !l.transfer.newTermTimer.active
 //@   requires [C16.actions-on-latest] config == l.configs.Latest
 //@   modifies *
 //@   ensures gcfgchecks == old(gcfgchecks) + 1
 
-//@ func (transfer).inProgress
+//@ func (transfer).inProgress params(t)
 //@   requires t.timer != nil
 //@   ensures [C16.in-progress] result0 == t.timer.active
-//@ func (transfer).targetChosen
+//@ func (transfer).targetChosen params(t)
 //@   requires t.newTermTimer != nil
 //@   ensures [C16.target-chosen] result0 == (t.respCh != nil || t.newTermTimer.active)
 
-//@ func (*transfer).reply
+//@ func (*transfer).reply params(t, err)
 //@   requires t.timer != nil && t.newTermTimer != nil
 //@   modifies t.task.result, t.task.greplied, t.timer.active, t.respCh, t.newTermTimer.active
 //@   ensures [C16+C15.reply-clears] !t.timer.active && t.respCh == nil && !t.newTermTimer.active
@@ -301,7 +301,7 @@ package raft
 // The sentinels are package variables of type plainError (their values are opaque to the engine),
 // so "each error iff its condition" is written as the decision cascade: the result is a function
 // of the conditions, first match wins, nil iff no condition holds.
-//@ func (*leader).validateTransfer
+//@ func (*leader).validateTransfer params(l, t)
 //@   requires l.Raft != nil && l.storage != nil && l.transfer.timer != nil
 //@   ensures [C16.validate] l.transfer.timer.active ==> istype(result0, InProgressError)
 //@   ensures [C16.validate] !l.transfer.timer.active && NumVoters(l.configs.Latest) == 1 ==> IsPlainErr(result0, ErrTransferNoVoter)
@@ -319,14 +319,14 @@ package raft
 // with the chosen target is l.getConnPool(target) (the goroutine then uses that pool). This view,
 // used only at that call site, is the reference contract of getConnPool plus the ghost record.
 //@ ghost var xferTarget uint64
-//@ view (*Raft).getConnPool at (*leader).tryTransfer
+//@ view (*Raft).getConnPool at (*leader).tryTransfer params(r, nid)
 //@   requires r.storage != nil && PoolsInv(r)
 //@   modifies contents(r.connPools), xferTarget
 //@   ensures [C20.pool-identity] result0 != nil && result0.cid == r.cid && result0.nid == nid && result0.src == r.nid
 //@   ensures [C20.pools-inv] PoolsInv(r)
 //@   ensures xferTarget == nid
 
-//@ func (*leader).tryTransfer
+//@ func (*leader).tryTransfer params(l)
 //@   requires XferWF(l) && XferReplsCover(l)
 //@   requires [C16.target-not-self] l.transfer.target != l.nid
 //@   requires !has(l.configs.Latest.Nodes, 0)
@@ -337,7 +337,7 @@ package raft
 //@   loop 1 invariant target == 0 && subset(visitedset(), keys(l.configs.Latest.Nodes)) && forall(k, visited(k) ==> !Eligible(l, k))
 //@   loop 1 invariant XferWF(l) && XferReplsCover(l) && l.transfer.respCh == old(l.transfer.respCh) && xferTarget == old(xferTarget) && l.transfer.target == 0
 
-//@ func (*leader).onTransfer
+//@ func (*leader).onTransfer params(l, t)
 //@   requires XferWF(l) && XferReplsCover(l) && !has(l.configs.Latest.Nodes, 0) && l.nid != 0
 //@   modifies l.transfer.term, l.transfer.transferLdr, l.transfer.deadline, l.transfer.timer.active, l.transfer.respCh, contents(l.connPools), xferTarget, t.task.result, t.task.greplied
 //@   ensures [C16.validate] old(l.transfer.timer.active) || NumVoters(l.configs.Latest) == 1 || (t.target != 0 && (t.target == l.nid || !IsVoter(l.configs.Latest, t.target))) ==>
@@ -349,17 +349,17 @@ package raft
 //@   ensures [C16.target-not-self] l.transfer.timer.active && !old(l.transfer.timer.active) ==> l.transfer.target != l.nid
 //@   ensures XferWF(l)
 
-//@ func (*leader).replyTransfer
+//@ func (*leader).replyTransfer params(l, err)
 //@   requires XferWF(l)
 //@   modifies *
 //@   ensures [C16.actions-rerun] gcfgchecks == old(gcfgchecks) + 1
 
-//@ func (*leader).onTransferTimeout
+//@ func (*leader).onTransferTimeout params(l)
 //@   requires XferWF(l)
 //@   modifies *
 //@   ensures [C16.actions-rerun] gcfgchecks == old(gcfgchecks) + 1
 
-//@ func (*leader).onNewTermTimeout
+//@ func (*leader).onNewTermTimeout params(l)
 //@   requires XferWF(l) && XferReplsCover(l) && !has(l.configs.Latest.Nodes, 0)
 //@   requires [C16.target-not-self] l.transfer.target != l.nid
 //@   modifies l.transfer.respCh, contents(l.connPools), xferTarget
@@ -369,7 +369,7 @@ package raft
 // result of the timeoutNow RPC, delivered on transfer.respCh (goroutine boundary: the response
 // object is the one the RPC goroutine filled in; rpc.from is the node the request was sent to,
 // which has a replication).
-//@ func (*leader).onTimeoutNowResult
+//@ func (*leader).onTimeoutNowResult params(l, rpc)
 //@   requires XferWF(l) && XferReplsCover(l) && !has(l.configs.Latest.Nodes, 0)
 //@   requires [C16.target-not-self] l.transfer.target != l.nid
 //@   requires [PA-chan.timeout-now-result] (rpc.err == nil ==> ptrnonnil(rpc.response) && IsTimeoutNowResp(rpc.response)) && (rpc.err != nil ==> has(l.repls, rpc.from) && l.repls[rpc.from] != nil)
@@ -388,6 +388,6 @@ package raft
 
 // ---------------------------------------------------------------------------
 // reachability bookkeeping of the replication goroutine (sequential piece)
-//@ func (*replication).notifyNoContact
+//@ func (*replication).notifyNoContact params(r, err)
 //@   nilable err
 //@   modifies r.noContact
